@@ -3,6 +3,7 @@ import Pyunicorn.Lemmas.SimilarityIeee
 import Pyunicorn.Lemmas.SimilarityWeight
 import Pyunicorn.Lemmas.SimilarityHilbert
 import Pyunicorn.Lemmas.SimilarityRounding
+import Pyunicorn.Lemmas.SimilarityRnF
 import Pyunicorn.Lemmas.SimilarityCoupled
 import Pyunicorn.Generated.ArithC09
 import Pyunicorn.Model.SimilarityScript
@@ -1287,6 +1288,147 @@ theorem coupled_after_history (N1 N2 : Nat) (directed : Bool) (S0 damp : Sim) (n
 example : let s : Net := mkThreshold 3 false (fun i j => if i = j then 1 else ((i + j : Nat) : Rat) / 4) (fun _ _ => 1) false (3/8)
     crossLayerAdjacency 1 2 s = [[0, 1]] ∧ adjacency1 1 s = [[0]] ∧ adjacency2 1 2 s = [[0, 1], [1, 0]] ∧
       numberCrossLayerLinks 1 2 s = 1 ∧ crossLinkDensityC 1 2 s = some (1/2) := by decide +kernel
+
+/-! ## 11. the float32 rounding of the model *is* a rounding (round 5)
+
+The theorems of section 9 hold for every monotone `fl` that leaves the stored values fixed; until
+round 4 these two facts were hypotheses, probed on samples.  For `rnF p emin` (every precision
+`p ≥ 1`, every `emin`; `rn24 = rnF 24 (-126)` is what the driver runs and what is compared with
+numpy's float32 on every run) they are theorems, so the float32 statements hold for every object
+the class can reach with **no hypothesis about the rounding left**. -/
+
+/-- **round-to-nearest-even to `p` bits with gradual underflow is monotone** — within a binade,
+across binades (where the spacing doubles), through the subnormal range and through zero -/
+theorem rnF_monotone (p : Nat) (hp : 1 ≤ p) (emin : Int) (x y : Rat) (h : x ≤ y) :
+    rnF p emin x ≤ rnF p emin y := rnF_mono p hp emin x y h
+
+/-- **… idempotent** (a result is representable: rounding it again changes nothing) **and odd** -/
+theorem rnF_idempotent (p : Nat) (hp : 1 ≤ p) (emin : Int) (x : Rat) :
+    rnF p emin (rnF p emin x) = rnF p emin x ∧ rnF p emin (-x) = - rnF p emin x :=
+  ⟨rnF_idem p hp emin x, rnF_neg p emin x⟩
+
+/-- the binary exponent of the model is the true one: `2^e ≤ x < 2^(e+1)` -/
+theorem binExp_spec (x : Rat) (hx : 0 < x) : twoPow (binExp x) ≤ x ∧ x < twoPow (binExp x + 1) :=
+  ⟨twoPow_binExp_le x hx, binExp_lt x hx⟩
+
+theorem rn24_monotone (x y : Rat) (h : x ≤ y) : rn24 x ≤ rn24 y :=
+  rnF_mono 24 (by norm_num) (-126) x y h
+
+theorem rn24_idempotent (x : Rat) : rn24 (rn24 x) = rn24 x := rnF_idem 24 (by norm_num) (-126) x
+
+/-- binary32 is exact on the constants of the weight formula -/
+theorem rn24_exact_consts : rn24 0 = 0 ∧ rn24 1 = 1 ∧ rn24 2 = 2 ∧ rn24 (1 / 2) = 1 / 2 := by
+  decide +kernel
+
+/-- **the stored similarity `np.abs(S.astype("float32"))` consists of float32 fixed points ≥ 0** -/
+theorem rn24_stored_fixed (S0 : XSim) (i j : Nat) (v : Rat) (h : absX rn24 S0 i j = some v) :
+    rn24 v = v ∧ 0 ≤ v := by
+  simp only [absX, Option.map_eq_some_iff] at h
+  obtain ⟨s0, _, rfl⟩ := h
+  exact rnF_abs_fixed 24 (by norm_num) (-126) s0
+
+/-- **… and stays so after every history** of `set_threshold / set_link_density / set_non_local`
+calls and similarity re-derivations (NaN entries, NaN thresholds allowed): hypothesis `hrep` of the
+`x_*` theorems holds for every reachable object -/
+theorem rn24_stored_fixed_after_history (N : Nat) (directed : Bool) (S0 : XSim) (damp : Sim)
+    (nl : Bool) (θ : Option Rat) (ops : List XOp) (s' : XNet)
+    (h : (mkThresholdX rn24 N directed S0 damp nl θ).run rn24 ops = some s') :
+    (∀ i j v, s'.S i j = some v → rn24 v = v ∧ 0 ≤ v) ∧ s'.N = N ∧ s'.damp = damp ∧
+      s'.Consistent rn24 := by
+  have hc : (mkThresholdX rn24 N directed S0 damp nl θ).Consistent rn24 :=
+    (x_setThreshold_consistent rn24 _ θ).1
+  obtain ⟨c, ⟨d1, _, d3⟩, d4⟩ := x_consistent_after_history rn24 ops _ s' hc h
+  have hS : s'.S = absX rn24 (lastSimX S0 ops) := by
+    rw [d4, ← curSimX_absX]; rfl
+  refine ⟨?_, d1, d3, c⟩
+  intro i j v hv
+  rw [hS] at hv
+  exact rn24_stored_fixed _ i j v hv
+
+/-- **the weighted similarity the comparison sees is a float32 fixed point too** (the stored value,
+or the rounded product `fl (s·w)`) -/
+theorem rn24_weighted_fixed (nl : Bool) (S : XSim) (damp : Sim)
+    (hrep : ∀ i j v, S i j = some v → rn24 v = v ∧ 0 ≤ v) (i j : Nat) (v : Rat)
+    (h : weightedX rn24 nl S damp i j = some v) : rn24 v = v := by
+  simp only [weightedX, Option.map_eq_some_iff] at h
+  obtain ⟨s, hs, rfl⟩ := h
+  cases nl
+  · simpa using (hrep i j s hs).1
+  · simpa using rn24_idempotent (s * damp i j)
+
+/-- **the link rule of every reachable float32 object, against the *unrounded* reported
+threshold**: a reported link joins distinct nodes whose (damped, float32) similarity exceeds
+`threshold()`; a pair above `threshold()` that is not linked has `float32(threshold()) =` its
+similarity.  No hypothesis about the rounding; `non_local` on or off; NaNs anywhere. -/
+theorem rn24_link_rule_after_history (N : Nat) (directed : Bool) (S0 : XSim) (damp : Sim)
+    (nl : Bool) (θ : Option Rat) (ops : List XOp) (s' : XNet)
+    (h : (mkThresholdX rn24 N directed S0 damp nl θ).run rn24 ops = some s')
+    (t : Rat) (ht : s'.θ = some t) (i j : Nat) (hi : i < N) (hj : j < N) (w : Rat)
+    (hw : weightedX rn24 s'.nonLocal s'.S damp i j = some w) :
+    (s'.A[i * N + j]? = some true → i ≠ j ∧ t < w) ∧
+      (i ≠ j → t < w → s'.A[i * N + j]? ≠ some true → rn24 t = w) := by
+  obtain ⟨hrep, hN, hd, hA, _, _⟩ := rn24_stored_fixed_after_history N directed S0 damp nl θ ops s' h
+  rw [hA, ht, hN, hd]
+  have hfix := rn24_weighted_fixed s'.nonLocal s'.S damp hrep i j w hw
+  exact ⟨fun hl => float_links_sound rn24 rn24_monotone _ t N i j hi hj w hw hfix hl,
+    fun hij htw hl => float_links_complete rn24 rn24_monotone _ t N i j hi hj hij w hw hfix htw hl⟩
+
+/-- **`set_link_density(ρ)` as executed on every reachable float32 object**: whatever history of
+setters and re-derivations produced the object (NaN similarities and NaN thresholds included), the
+call with the IEEE index links at most `(ρ + 2⁻⁵² + 2⁻¹⁰⁶)·(N² − N)` ordered pairs.  The only
+hypothesis left is `damp ≤ 1` (discharged below for the computed weight). -/
+theorem rn24_density_request_after_history (N : Nat) (directed : Bool) (S0 : XSim) (damp : Sim)
+    (nl : Bool) (θ : Option Rat) (ops : List XOp) (s' s'' : XNet) (ρ : Rat)
+    (h : (mkThresholdX rn24 N directed S0 damp nl θ).run rn24 ops = some s')
+    (hd : ∀ i j, i < N → j < N → damp i j ≤ 1) (h0 : 0 ≤ ρ) (h1 : ρ ≤ 1)
+    (h2 : s'.setLinkDensity rn24 (ieeeIndex ρ (offDiagX s'.S s'.N).length) = some s'') :
+    (nnz s''.A : Rat) ≤ (ρ + ieeeSlack) * ((offDiagX s'.S s'.N).length : Rat) := by
+  obtain ⟨hrep, hN, hdm, _⟩ := rn24_stored_fixed_after_history N directed S0 damp nl θ ops s' h
+  exact x_set_link_density_ieee rn24 rn24_monotone s' s'' ρ (fun i j v _ _ hv => hrep i j v hv)
+    (by rw [hN, hdm]; exact hd) h0 h1 h2
+
+/-- **the weight as computed in float32 lies in `[0, 1]`** for every `tanh` with values in
+`[-1, 1]` — no hypothesis about the rounding -/
+theorem rn24_weight_mem_unit (th : Rat → Rat) (hth : ∀ x, -1 ≤ th x ∧ th x ≤ 1) (a dmin d : Rat) :
+    0 ≤ dampOfFl rn24 th a dmin d ∧ dampOfFl rn24 th a dmin d ≤ 1 :=
+  dampOfFl_mem_unit rn24 th rn24_monotone rn24_exact_consts.1 rn24_exact_consts.2.1
+    rn24_exact_consts.2.2.1 hth a dmin d
+
+/-- **… hence with the documented weight nothing is assumed at all**: a float32 network with the
+distance weight computed as the code computes it, after any history, never exceeds a requested
+density by more than the rounding unit of the index -/
+theorem rn24_density_request_documented_weight (N : Nat) (directed : Bool) (S0 : XSim) (dist : Sim)
+    (th : Rat → Rat) (hth : ∀ x, -1 ≤ th x ∧ th x ≤ 1) (a dmin : Rat)
+    (nl : Bool) (θ : Option Rat) (ops : List XOp) (s' s'' : XNet) (ρ : Rat)
+    (h : (mkThresholdX rn24 N directed S0 (dampMatFl rn24 th a dmin dist) nl θ).run rn24 ops
+      = some s') (h0 : 0 ≤ ρ) (h1 : ρ ≤ 1)
+    (h2 : s'.setLinkDensity rn24 (ieeeIndex ρ (offDiagX s'.S s'.N).length) = some s'') :
+    (nnz s''.A : Rat) ≤ (ρ + ieeeSlack) * ((offDiagX s'.S s'.N).length : Rat) :=
+  rn24_density_request_after_history N directed S0 _ nl θ ops s' s'' ρ h
+    (fun i j _ _ => (rn24_weight_mem_unit th hth a dmin (dist i j)).2) h0 h1 h2
+
+/-- **suppressing local links only removes links, on every reachable float32 object** -/
+theorem rn24_non_local_le_after_history (N : Nat) (directed : Bool) (S0 : XSim) (damp : Sim)
+    (nl : Bool) (θ : Option Rat) (ops : List XOp) (s' : XNet)
+    (h : (mkThresholdX rn24 N directed S0 damp nl θ).run rn24 ops = some s')
+    (hd : ∀ i j, i < N → j < N → damp i j ≤ 1) (t : Option Rat) :
+    nnz (thresholdAdjacencyX (weightedX rn24 true s'.S damp) t N)
+      ≤ nnz (thresholdAdjacencyX (weightedX rn24 false s'.S damp) t N) := by
+  obtain ⟨hrep, _, _, _⟩ := rn24_stored_fixed_after_history N directed S0 damp nl θ ops s' h
+  exact x_nnz_non_local_le rn24 rn24_monotone s'.S damp t N (fun i j v _ _ hv => hrep i j v hv) hd
+
+/-- the crossing of a binade: 2²⁴−1 and 2²⁴+1 round to 2²⁴−1 and 2²⁴ (spacing 1 → 2), the largest
+subnormal and the smallest normal are fixed, half the smallest subnormal rounds to zero (even) -/
+example : rn24 (2 ^ 24 - 1) = 2 ^ 24 - 1 ∧ rn24 (2 ^ 24 + 1) = 2 ^ 24 ∧ rn24 (2 ^ 24 + 3) = 2 ^ 24 + 4 ∧
+    rn24 ((2 ^ 23 - 1) / 2 ^ 149) = (2 ^ 23 - 1) / 2 ^ 149 ∧ rn24 (1 / 2 ^ 126) = 1 / 2 ^ 126 ∧
+    rn24 (1 / 2 ^ 150) = 0 ∧ rn24 (3 / 2 ^ 150) = 4 / 2 ^ 150 ∧ rn24 (-(2 ^ 24 + 1)) = -(2 ^ 24) := by
+  decide +kernel
+
+/-- a reachable float32 object with a NaN pair, after `set_non_local(True)` and a re-derivation -/
+example : ((mkThresholdX rn24 2 false (fun i j => if i = j then some 1 else some (-(1/3)))
+    (fun _ _ => 3/4) false (some (1/4))).run rn24
+      [.nl true, .resim (fun i j => if i = j then none else some (2/3))]).isSome = true := by
+  decide +kernel
 
 section Scripts
 open Script
